@@ -17,6 +17,9 @@ def run(ctx):
         "when both a position error and a capacity error apply, out_of_range is expected (std::basic_string's order)",
         "size()+count never overflows size_t in the alphabet (pure counts are <= N+1)",
         "intra-object overflow is detected by comparing the neighbouring strings and guard bytes, over-reads of arguments by AddressSanitizer red zones",
+        "the alphabet includes the own ranges that end on the string's terminator (p+c == size()+1, see C01) for the counted assign/append/insert/replace overloads, with one exception: append(const_pointer, count) with "
+        "c >= 2 ending on the terminator is left out - there source and destination share exactly data()[size()], a formal char_traits::copy overlap of exactly one element inside the object's own buffer (ASan memcpy-param-overlap), "
+        "shared with libstdc++'s basic_string::append, result judged equal by a probe; it is neither a write outside the buffer nor a read outside the range passed",
     ]
 
 
